@@ -8,6 +8,7 @@ CONSTANTS Keys = {1, 2, 3, 4}
           EK = 0
           TName = "IntKeyMap"
           NHeld = 0
+          NEnum = 0
 VIEW View
 INVARIANTS SetOK RefuseOK KeysBagExact NilIsAValue
 PROPERTIES Frame PutStores RefusalInert RemoveExact ClearEmpties PutAllIsPuts ReadOnlyKeeps OthersKept PutAllFromIsPuts SizeLaw
